@@ -1,6 +1,7 @@
 SPECIFICATION TraceSpec
 CONSTANTS
-  MaxRetry = 0
+  MaxRetryC = 0
+  MaxRetryR = 0
   MaxFail = 1000
   MaxDepth = 16
   MaxKids = 16
